@@ -2721,6 +2721,18 @@ class Session(_SessionClassMethods, EventTarget):
         """
 
         all_states = self.identity_map.all_states() + list(self._new)
+
+        if self._transaction is not None:
+            # objects that a flush inside the transaction in progress has
+            # deleted are in neither collection, but they still belong to
+            # this Session ("deleted" state) and are expunged as well
+            seen = set(all_states)
+            for trans in self._transaction._iterate_self_and_parents():
+                for state in list(trans._deleted):
+                    if state not in seen and state.session_id == self.hash_key:
+                        seen.add(state)
+                        all_states.append(state)
+
         self.identity_map._kill()
         self.identity_map = identity._WeakInstanceDict()
         self._new = {}
